@@ -104,10 +104,27 @@ Definition filter_wop (s : script) (o : wop) : wop :=
   | _ => o
   end.
 
-(* The operator's files: the script the configuration names, and whether it
+(* A generated vRIB (src/config.rs expand_shorthand_vribs: `[units.rib]` with
+   `filter_names` of n+1 entries becomes the physical RIB `rib` and the units
+   `rib-vRIB-0` .. `rib-vRIB-<n-1>`, rib_type = GeneratedVirtual(i), `sources` =
+   the RIB before it in the chain, `vrib_upstream` = `rib`): the filter it fetched
+   when it was started and the number of the load that started it, as for any RIB
+   unit; and the two links a prefix query of its HTTP endpoint
+   (<http_api_path>/<i>/<prefix>, rib_unit/http/request.rs handle_prefix_query)
+   depends on, each identified by the number of the load that made it (every load
+   makes new gates and new links, a link reaches the gate of its own load only):
+   vr_up = `vrib_upstream`, through which the Trigger(MatchPrefix) is sent to the
+   physical RIB; vr_src = `sources`, over which the QueryResult comes down the
+   chain. rib_unit/unit.rs, arm GateStatus::Reconfiguring: both are replaced by
+   the links of the new configuration (set_vrib_upstream; sources = new_sources
+   + connect). *)
+Record vrib := MkVrib { vr_filter : script; vr_born : nat; vr_up : nat; vr_src : nat }.
+
+(* The operator's files: the script the configuration names, whether it
    has a second RIB unit `rib2` sourcing the bmp unit (0 absent, 1 a rib, any
-   other value: a unit of that name and another type). *)
-Record efile := MkEfile { ef_script : script; ef_rib2 : N }.
+   other value: a unit of that name and another type), and how many vRIBs the
+   shorthand of `[units.rib]` asks for (0: a plain RIB). *)
+Record efile := MkEfile { ef_script : script; ef_rib2 : N; ef_vribs : N }.
 
 Record estate := MkEs {
   es_w : world;                 (* the pipeline model: sessions, register; w_rib = an unfiltered RIB *)
@@ -118,16 +135,27 @@ Record estate := MkEs {
   es_rib2kind : N;              (* what runs under the name rib2 *)
   es_rib2 : option runit;       (* ... its filter and store when it is a rib *)
   es_s : sworld;                (* the property's reading of what `rib` should hold *)
-  es_s2 : option sworld }.      (* ... and `rib2`: sessions as es_s, routes since it was started *)
+  es_s2 : option sworld;        (* ... and `rib2`: sessions as es_s, routes since it was started *)
+  es_vribs : list vrib }.       (* the generated vRIBs behind `rib`, rib-vRIB-0 first *)
 
 Inductive eop :=
 | EW (o : wop)                  (* traffic *)
 | EScript (s : script)          (* the operator edits the script / names another one / takes roto_script out *)
 | EUnit (y : N)                 (* the operator adds, removes or re-types [units.rib2] *)
+| EVribs (n : N)                (* the operator edits filter_names of [units.rib]: n generated vRIBs *)
 | EReload.                      (* SIGHUP: ConfigFile::load, Config::from_config_file, Manager::spawn *)
 
-Definition e_init (s0 : script) : estate :=
-  MkEs world_init (MkEfile s0 0) [s0] s0 (MkRunit s0 0 rib_empty) 0 None sworld_init None.
+(* start-up with the script s0 and a shorthand RIB with n0 generated vRIBs *)
+Definition e_init_v (s0 : script) (n0 : N) : estate :=
+  MkEs world_init (MkEfile s0 0 n0) [s0] s0 (MkRunit s0 0 rib_empty) 0 None sworld_init None
+       (replicate (N.to_nat n0) (MkVrib s0 0 0 0)).
+Definition e_init (s0 : script) : estate := e_init_v s0 0.
+
+(* The number of the latest load = the load whose gates the running units hold:
+   a unit that is sent Reconfigure moves to the command channel of its new gate
+   (comms.rs GateCommand::Reconfigure), the channels of the earlier loads have
+   no reader any more. *)
+Definition es_cur (st : estate) : nat := pred (length (es_scripts st)).
 
 (* legacy = true: compile_roto_script as it was - a configuration WITHOUT
    roto_script left Manager.roto_compiled as it was, so a unit started by that
@@ -144,12 +172,16 @@ Definition e_step (legacy : bool) (st : estate) (o : eop) : estate :=
             | Some r, Some s2 => Some (sstep s2 (filter_wop (ru_filter r) wo)).1
             | _, _ => None
             end)
+           (es_vribs st)
   | EScript s =>
-      MkEs (es_w st) (MkEfile s (ef_rib2 (es_file st))) (es_scripts st) (es_compiled st)
-           (es_rib st) (es_rib2kind st) (es_rib2 st) (es_s st) (es_s2 st)
+      MkEs (es_w st) (MkEfile s (ef_rib2 (es_file st)) (ef_vribs (es_file st))) (es_scripts st) (es_compiled st)
+           (es_rib st) (es_rib2kind st) (es_rib2 st) (es_s st) (es_s2 st) (es_vribs st)
   | EUnit y =>
-      MkEs (es_w st) (MkEfile (ef_script (es_file st)) y) (es_scripts st) (es_compiled st)
-           (es_rib st) (es_rib2kind st) (es_rib2 st) (es_s st) (es_s2 st)
+      MkEs (es_w st) (MkEfile (ef_script (es_file st)) y (ef_vribs (es_file st))) (es_scripts st) (es_compiled st)
+           (es_rib st) (es_rib2kind st) (es_rib2 st) (es_s st) (es_s2 st) (es_vribs st)
+  | EVribs n =>
+      MkEs (es_w st) (MkEfile (ef_script (es_file st)) (ef_rib2 (es_file st)) n) (es_scripts st) (es_compiled st)
+           (es_rib st) (es_rib2kind st) (es_rib2 st) (es_s st) (es_s2 st) (es_vribs st)
   | EReload =>
       let f := es_file st in
       let compiled :=
@@ -165,8 +197,16 @@ Definition e_step (legacy : bool) (st : estate) (o : eop) : estate :=
       let s2 := if keep then es_s2 st
                 else if wanted then Some (MkSWorld (s_sess (es_s st)) ∅ (s_bgp (es_s st)) (s_bgp_conns (es_s st)))
                 else None in
+      (* generated vRIBs: rib-vRIB-i of the new file is the running unit of that name if there is one - Reconfigure:
+         filter kept, both links replaced by the ones this load made - and is started otherwise, with what the
+         manager holds now; running vRIBs the file no longer asks for are terminated *)
+      let this := length (es_scripts st) in
+      let nv := N.to_nat (ef_vribs f) in
+      let vribs :=
+        map (fun v => MkVrib (vr_filter v) (vr_born v) this this) (take nv (es_vribs st))
+        ++ replicate (nv - length (es_vribs st)) (MkVrib compiled this this this) in
       MkEs (es_w st) f (es_scripts st ++ [ef_script f]) compiled
-           (es_rib st) (ef_rib2 f) rib2 (es_s st) s2
+           (es_rib st) (ef_rib2 f) rib2 (es_s st) s2 vribs
   end.
 
 Definition e_run (legacy : bool) (st : estate) (h : list eop) : estate := fold_left (e_step legacy) h st.
@@ -179,3 +219,48 @@ Fixpoint scripts_named (cur : script) (h : list eop) : list script :=
   | EReload :: t => cur :: scripts_named cur t
   | _ :: t => scripts_named cur t
   end.
+
+(* ------------------------------------------------------------------ *)
+(* A prefix query of generated vRIB i (GET <http_api_path>/<i>/<prefix>).
+   PrefixesApi::handle_prefix_query of a virtual RIB registers a pending result
+   under a fresh query id, sends Trigger(MatchPrefix) through its vrib_upstream
+   link and waits; the physical RIB (run, arm GateStatus::Triggered) answers
+   Update::QueryResult into its gate, every vRIB of the chain re-processes the
+   result with its own filter (process_update -> reprocess_query_results) and
+   passes it on until the one that waits for the id takes it. *)
+Inductive vanswer :=
+| VAbsent                              (* no vRIB of that number: nothing answers at that path *)
+| VNever                               (* the request is never answered *)
+| VAnswer (l : list (N * bool * N)).   (* the entries, as RibModel.rib_query gives them *)
+
+(* some filter of rib-vRIB-0 .. rib-vRIB-i rejects the routes of the prefix *)
+Definition chain_rejects (vs : list vrib) (i : nat) (pfx : N) : bool :=
+  existsb (fun v => script_rejects (vr_filter v) pfx) (take (S i) vs).
+
+(* the trigger of vRIB i reaches the physical RIB and the result comes down to it *)
+Definition chain_linked (cur : nat) (vs : list vrib) (i : nat) : bool :=
+  match vs !! i with Some v => (vr_up v =? cur)%nat | None => false end
+  && forallb (fun v => (vr_src v =? cur)%nat) (take (S i) vs).
+
+(* What the property asks for: vRIB i of the CURRENT configuration answers with
+   the entries of the physical RIB of the current configuration that pass the
+   filters of the chain up to it - without scripts: what the physical RIB says. *)
+Definition vrib_query_spec (st : estate) (i : nat) (af pfx : N) : vanswer :=
+  if (i <? length (es_vribs st))%nat
+  then VAnswer (if chain_rejects (es_vribs st) i pfx then [] else rib_query (ru_rib (es_rib st)) af pfx)
+  else VAbsent.
+
+(* What the code does: an empty result passes the chain; for a result with
+   entries reprocess_query_results calls reprocess_rib_value, whose body is
+   `todo!()` (rib_unit/unit.rs): the task of the physical RIB, which delivers the
+   result by DirectLink, panics, the request is never answered (and the physical
+   RIB is gone). A link of an earlier load reaches nobody. *)
+Definition vrib_query_code (st : estate) (i : nat) (af pfx : N) : vanswer :=
+  if (i <? length (es_vribs st))%nat
+  then if chain_linked (es_cur st) (es_vribs st) i
+       then match rib_query (ru_rib (es_rib st)) af pfx with
+            | [] => VAnswer []
+            | _ => VNever
+            end
+       else VNever
+  else VAbsent.
